@@ -17,7 +17,7 @@ BYFILE = [('src/str.c', 'C01'), ('src/ustr.c', 'C01'), ('src/mbuff.c', 'C07'), (
 CONF = {'C10': ['84f9d83', 'c01f998', 'ed23a4e', 'cf9567c', '265d316', '7e1ce25', 'f638c12', '3521386', '78d0ba3'],
         'C09': ['75645ea', '36fdf75', 'd1525b1', '23c5622'],
         'C11': ['da9c253', 'de9ea78', '27f5448', '974c02a', '0de1e2a', '2c9ce5a', '53584c7', '21726e5', 'de4e2b8', 'dbffd58', '6169b3f', 'ad27e38', '96e43a0', 'c5caeb3',
-                '35c1340', 'b2014b0', 'f679b94', '4cd2e78', 'a2618ef', '949f715']}
+                '35c1340', 'b2014b0', 'f679b94', '4cd2e78', 'a2618ef', '949f715', '16fcea6']}
 CONF_BY_HASH = {h: p for p, hs in CONF.items() for h in hs}
 def prop_of(subj, files, h=''):
     s = subj.lower()
